@@ -350,6 +350,8 @@ def gw_spec(rng, start, end, depths=(0.3, 0.8, 1.5, 2.5, 6.0, 30.0), p_multi=0.4
         n = int(rng.integers(2, 6))
         span = (end - start).days
         offs = [0] + sorted(set(int(x) for x in rng.integers(1, max(2, span), n - 1)))
+        if len(offs) > 2 and chance(rng, 0.2):
+            offs = offs[1:]     # the first observation lies after the start date
         method = pick(rng, ["Constant", "Variable"])
         base = float(pick(rng, list(depths)))
         vals = [round(max(0.1, base + float(rng.normal(0, 0.6))), 2) for _ in offs]
@@ -365,6 +367,11 @@ def co2_spec(rng, y0, y1):
     if r < 0.8:
         return {"constant": float(pick(rng, [250, 369.41, 400, 550, 800, 2500]))}
     a = float(pick(rng, [300, 369.41, 420]))
+    if rng.random() < 0.4:
+        # sparse series (knots every 5 years, like projections): years in between are interpolated
+        ya = (y0 // 5) * 5 - 5
+        return {"series": [[y, round(a + 2.1 * (y - ya) + (7.0 if (y // 5) % 2 else 0.0), 2)]
+                           for y in range(ya, y1 + 16, 5)]}
     return {"series": [[y, round(a + 2.1 * (y - (y0 - 1)), 2)] for y in range(y0 - 1, y1 + 2)]}
 
 
